@@ -1,5 +1,6 @@
 """TL world (C14): two peers exchange frames of the bundled schemas; a reference TL codec taps the wire in both
 directions; the schema directory is listed in each of its 6 orders through an os.listdir seam."""
+import json
 import itertools
 import os
 import random
@@ -858,7 +859,39 @@ class TlWorld(HistoryWorld):
         ok, res = call(lambda: {p: 1}[p])
         if not ok:
             self.V(ctx, 'blockid-dict-key', 'BlockId.__hash__', 'raises', 'using a BlockId as a dictionary key raised %r' % (res,))
+            return
         ctx.evaluated(8)
+        # the caller goes on working with what the helpers returned (derives the next block from the dict, tags it for TL, edits the
+        # dict it passed to from_dict): 'without loss' includes that the identifier it converted FROM still converts to the same
+        def edit(dd):
+            dd['seqno'] = (dd.get('seqno') or 0) + 1
+            dd['workchain'] = 77
+            dd['@type'] = 'tonNode.blockIdExt'
+            if 'root_hash' in dd:
+                dd['root_hash'] = 'ff' * 32
+        for name, obj, back, fields in (('BlockIdExt', b, b3, lambda x: tup(x)), ('BlockId', p, p2, lambda x: (x.workchain, x.shard, x.seqno))):
+            ok, d1 = call(obj.to_dict)
+            if not ok:
+                continue
+            snap = json.loads(json.dumps(d1, default=repr))
+            before = fields(obj)
+            call(edit, d1)
+            ok, d2 = call(obj.to_dict)
+            ctx.probe('caller-edits-the-dict-it-received')
+            if fields(obj) != before or not ok or json.loads(json.dumps(d2, default=repr)) != snap:
+                self.V(ctx, 'blockid-dict', name + '.to_dict', 'aliases-the-identifier', 'after the caller edited the dict returned by to_dict(), the identifier itself changed: '
+                       'fields %r -> %r, to_dict() %r -> %r' % (before, fields(obj), snap, d2))
+                return
+            # from_dict must not keep the caller's dict either
+            ok, d3 = call(obj.to_dict)
+            ok2, fresh = call(type(obj).from_dict, d3) if ok else (False, None)
+            if ok and ok2:
+                f0 = fields(fresh)
+                call(edit, d3)
+                if fields(fresh) != f0:
+                    self.V(ctx, 'blockid-dict', name + '.from_dict', 'aliases-the-dict', 'after the caller edited the dict it had passed to from_dict(), the identifier changed: %r -> %r' % (f0, fields(fresh)))
+                    return
+        ctx.evaluated(4)
 
     # ------------------------------------------------------------------ shrinking
     def shrink_op(self, op):
